@@ -245,7 +245,7 @@ def generate(rng, tier, index):
     real = r < 0.19
     sc = {"prop": ID, "kind": "gen"}
     det = rng.random() < 0.75
-    sc["det_seed"] = rng.randrange(2**32) if det else None
+    sc["det_seed"] = (rng.randrange(2**32) if rng.random() < 0.85 else rng.choice([0, 0, 1, 2**32 - 1, 2**32, 2**35 + 5])) if det else None
     sc["py_seed"] = rng.randrange(10**9)
     sc["py_seed2"] = rng.randrange(10**9)
     sc["max_calls"] = rng.choice([10, 25, 60]) if not (tier == "thorough" and rng.random() < 0.3) else rng.choice([100, 200])
@@ -285,7 +285,7 @@ def generate(rng, tier, index):
 
 def _gen_prng_real(rng):
     t = rng.choice(["real_randint", "real_randint", "xorshift", "switch", "real_shuffle"])
-    sc = {"prop": ID, "kind": "prng", "test": t, "s": rng.randrange(2**40)}
+    sc = {"prop": ID, "kind": "prng", "test": t, "s": rng.randrange(2**40) if rng.random() < 0.8 else rng.choice([0, 0, 1, 2**31, 2**32 - 1, 2**32])}
     if t == "real_randint":
         a = rng.choice([0, 0, 1, -5, 3, 100, -(2**31), rng.randint(-50, 50)])
         w = rng.choice([1, 2, 3, 5, 6, 7, 10, 100, 1000, 2**16 + 1, 2**31 + 3, 2**32 - 1, 2**32, rng.randint(1, 2**32)])
@@ -733,6 +733,18 @@ def _prng_switch(sc, res, dr, srandom):
         if vals_on != expect or lst != lst2:
             res.violate("C19/switch-not-honoured", f"with the deterministic PRNG on, srandom gave {vals_on} {lst}, deterministic_random gives {expect} {lst2}")
             return
+        # enabling again with the same seed while already enabled must rewind the stream ("same seed, same sequence")
+        srandom.use_deterministic_prng(True, s)
+        again = [srandom.randint(0, 9), srandom.choice([1, 2, 3]), srandom.random()]
+        if again != vals_on:
+            res.violate("C19/reseed-not-reproducible", f"use_deterministic_prng(True, {s}) while already enabled did not restart the stream: {vals_on} then {again}")
+            return
+        if s == 0:
+            srandom.use_deterministic_prng(True)  # documented: no seed means seed 0
+            dflt = [srandom.randint(0, 9), srandom.choice([1, 2, 3]), srandom.random()]
+            if dflt != vals_on:
+                res.violate("C19/reseed-not-reproducible", f"use_deterministic_prng(True) (default seed 0) gave {dflt}, seed 0 gives {vals_on}")
+                return
         if not srandom.is_use_deterministic_prng():
             res.violate("C19/switch-not-honoured", "is_use_deterministic_prng() is False after enabling")
             return
@@ -1121,6 +1133,13 @@ def exec_gen(sc, variant, res, check=True, retain=True):
         seam.install()
         pyrandom.seed(sc["py_seed"] if variant == 0 else sc["py_seed2"])
         if sc["det_seed"] is not None:
+            if variant == 1:
+                # the second execution starts like the N-th bench in a loop: the deterministic PRNG is
+                # already enabled and its stream has advanced; enabling it again with the seed must rewind
+                srandom.use_deterministic_prng(True, 12345)
+                for _ in range(7):
+                    srandom.random()
+                res.hit("perturb:prng_already_enabled_and_advanced_before_reseed")
             srandom.use_deterministic_prng(True, sc["det_seed"])
         else:
             srandom.use_deterministic_prng(False)
